@@ -51,7 +51,7 @@ PROBES = ["event_queued_while_bytes_buffered", "two_scheduled_due", "equal_when"
           "threshold_none_burst_gt_read_size", "timeout_expired", "unget_ahead_of_stream", "keyboardinterrupt_torn_request",
           "threadsafe_event_woke_blocked_request", "callback_preempted_between_append_and_write", "sentinel_injected",
           "sigwinch_wakeup", "scheduled_woke_request", "pipe_full_block", "multi_kb_burst", "trigger_created_mid_run",
-          "request_failed_with_injected_eio"]
+          "request_failed_with_injected_eio", "cursor_query", "cursor_query_with_typeahead"]
 TRIGGERS = {}
 
 KEYS_ASCII = [b"a", b"b", b"c", b"x", b"y", b"z", b" ", b"\n", b"\t", b"\x7f", b"\x01", b"\x04", b"1", b"Q", b"~", b"["]
@@ -142,8 +142,12 @@ def gen_plan(seed, tier, index=0, avoid=()):
                 main.append({"op": "sched", "at": round(rng.uniform(-0.5, 4.0), 6) + rng.random() * 1e-7})
         elif r < 0.90 and nts:
             main.append({"op": "ts_call", "trig": rng.randrange(nts)})
-        elif r < 0.95:
+        elif r < 0.93:
             main.append({"op": "sleep", "dt": rng.choice((0.001, 0.05, 0.5))})
+        elif r < 0.95 and not split:
+            # a CursorAwareWindow sharing the tty asks for the cursor position between two requests; what was
+            # typed ahead of the terminal's report is handed back through unget_bytes (bpython's wiring)
+            main.append({"op": "cursor_query"})
         else:
             main.append({"op": "send", "timeout": rng.choice((0.01, None))})
     # timed environment: user typing and signals while the app runs / is blocked
@@ -442,7 +446,7 @@ def _execute(p, s, res):
 
     SEv.next_serial = [None]
 
-    def on_tty_read(fd, data):
+    def on_tty_read(fd, data, in_request=True):
         import bisect
         a, base = M.tty_read_total, len(M.entered)
         i = bisect.bisect_right(M.bound_list, a)
@@ -450,7 +454,8 @@ def _execute(p, s, res):
             M.entered_bounds.add(base + M.bound_list[i] - a)
             i += 1
         M.entered.extend(data)
-        M.req_reads.append(len(data))
+        if in_request:
+            M.req_reads.append(len(data))
         M.tty_read_total += len(data)
         if M.tty_read_total not in M.boundaries:
             world.probe("char_cut_by_read")
@@ -777,6 +782,32 @@ def _execute(p, s, res):
             _violate(res, "blocked_while_deliverable", si, {"deliverable": deliv, "timeout": timeout,
                                                             "waited": round(now - start, 9), "returned": kind})
 
+    win_holder = []
+
+    def do_cursor_query(si):
+        from curtsies.window import CursorAwareWindow
+        if not win_holder:
+            def hand_back(b):
+                world.log.add("extra_bytes", b)
+                on_tty_read(s.fd, b, False)        # these bytes left the tty queue in stream order ...
+                inp.unget_bytes(b)                 # ... and enter the Input's buffer here
+            win_holder.append(CursorAwareWindow(out_stream=s.out, in_stream=s.inp, extra_bytes_callback=hand_back))
+        ahead = len(s.tty.inq)
+        world.log.add("cursor_query", si, ahead)
+        try:
+            pos = win_holder[0].get_cursor_position()
+        except KeyboardInterrupt:
+            world.log.add("cursor_query_torn", si)
+            return
+        except (HarnessError, SimAbort, StepCap, Quiescent):
+            raise
+        except Exception as e:
+            _violate(res, "cursor_query_raised", si, {"exception": "%s: %s" % (type(e).__name__, e)})
+            return
+        world.probe("cursor_query_with_typeahead" if ahead else "cursor_query")
+        if pos != (s.term.r, s.term.c):
+            _violate(res, "cursor_query_wrong_position", si, {"returned": list(pos), "cursor": [s.term.r, s.term.c]})
+
     # spurious wake-up accounting: a trigger pipe read that finds no event
     orig_read = kernel.read
     req_spur = [0]
@@ -873,6 +904,11 @@ def _execute(p, s, res):
                         world.log.add("ts_call_skipped_pipe_full", st["trig"])
                 elif op == "sleep":
                     world.block_until(lambda: False, world.now + st["dt"], "sleep")
+                elif op == "cursor_query":
+                    if M.tty_read_total not in M.boundaries:
+                        world.log.add("cursor_query_skipped_mid_key")
+                        continue
+                    do_cursor_query(si)
                 if res["violation"]:
                     break
             while len(ts_cbs) < cfg["nts"]:
